@@ -1,6 +1,6 @@
 from props import cfg
 
-CFG = cfg('C06', extract='Ex_C06', driver='c06',
+CFG = cfg('C06', refine=['Refine_keyprotect'], extract='Ex_C06', driver='c06',
           rule='histories over {protect, enter good/bad, exit, exception in scope, sign, decrypt, export, re-import} (scripted + random op lists, '
                'nested scopes, re-protect inside a scope) x {rsa2048+RSA subkey, dsa2048, p256+ECDH, ed25519+ECDH+EdDSA subkeys} x 9 ciphers x 7 S2K '
                'hashes x passphrases (ASCII, UTF-8, 1000+ chars, raw bytes) x S2K counts (incl. PGPy\'s 255); every protect: model predicts the '
